@@ -172,3 +172,8 @@ func VerifHarness_C02_O2b() {
 	verifAssert("block-just-written-is-what-is-read", gerr == nil && got == b)
 	verifReach("end")
 }
+
+// C02/O4 — after delivery only the set of collected signatures may grow: the
+// signature-recording step leaves every stored block's body untouched (same
+// obligation as C09/O1, which asserts the body digest before and after).
+func VerifHarness_C02_O4() { VerifHarness_C09_O1() }
